@@ -62,18 +62,18 @@ def collect(repo=None, release=False):
     os.makedirs(target, exist_ok=True)
     # cargo does not refresh the uplifted copy of a fresh artifact: remove it so that the file read below is the one
     # produced (or re-linked) for *this* tree
-    for f in glob.glob(os.path.join(target, "release" if release else "debug", "libnaijascript*.rlib")):
+    for f in glob.glob(os.path.join(target, "release" if release else "debug", "libnaijascript*.rlib")) + [f for f in glob.glob(os.path.join(target, "release" if release else "debug", "deps", "naija-*")) if os.path.isfile(f) and "." not in os.path.basename(f)]:
         os.remove(f)
     fp = os.path.join(target, "release" if release else "debug", ".fingerprint")
     if os.path.isdir(fp):
         for dd in os.listdir(fp):
-            if dd.startswith("naijascript-"):
+            if dd.startswith("naijascript-") or dd.startswith("naija-"):
                 shutil.rmtree(os.path.join(fp, dd), ignore_errors=True)
     env = dict(os.environ, CARGO_TARGET_DIR=target, CARGO_NET_OFFLINE="true",
                RUSTFLAGS="-Z emit-stack-sizes -C symbol-mangling-version=v0 -Awarnings")
     env.pop("RUSTC_WRAPPER", None)
     env.pop("RUSTC_WORKSPACE_WRAPPER", None)
-    cmd = ["cargo", "+nightly", "build", "--offline", "-p", "naijascript", "--lib", "--message-format=json"]
+    cmd = ["cargo", "+nightly", "build", "--offline", "-p", "naijascript", "--lib", "--bins", "--message-format=json"]
     if release:
         cmd.append("--release")
     r = subprocess.run(cmd, cwd=repo, env=env, capture_output=True, text=True)
@@ -91,6 +91,9 @@ def collect(repo=None, release=False):
                     rlib = f
     if rlib is None or not os.path.exists(rlib):
         raise factsmod.MachineryError("stack-size build produced no rlib")
+    # the binary crate's own objects stay next to the linked executable
+    bin_objs = [f for f in glob.glob(os.path.join(target, "release" if release else "debug", "deps", "naija-*")) if "." not in os.path.basename(f) and os.path.isfile(f)]
+    bin_objs = sorted(bin_objs, key=os.path.getmtime)[-1:]      # the executable just linked (its .stack_sizes survives the link)
     sysroot = subprocess.check_output(["rustc", "+nightly", "--print", "sysroot"], text=True).strip()
     host = subprocess.check_output(["rustc", "+nightly", "-vV"], text=True)
     host = re.search(r"host: (\S+)", host).group(1)
@@ -105,6 +108,7 @@ def collect(repo=None, release=False):
         out = subprocess.run([readobj, "--stack-sizes", "--demangle"] + objs, capture_output=True, text=True)
         if out.returncode != 0:
             raise factsmod.MachineryError("llvm-readobj failed: " + out.stderr[-1000:])
+        out_bin = subprocess.run([readobj, "--stack-sizes", "--demangle"] + bin_objs, capture_output=True, text=True) if bin_objs else None
     finally:
         shutil.rmtree(tmp, ignore_errors=True)
     raw, fn = {}, None
@@ -122,6 +126,20 @@ def collect(repo=None, release=False):
     for name, sz in raw.items():
         k = normalise(name)
         sizes[k] = max(sizes.get(k, 0), sz)
+    # frames of the binary crate, keyed "bin:<path>" (crate prefix `naija::` dropped)
+    if out_bin is not None and out_bin.returncode == 0:
+        fnm = None
+        for l in out_bin.stdout.splitlines():
+            m = re.match(r"\s*Functions: \[(.*)\]", l)
+            if m:
+                fnm = m.group(1)
+                continue
+            m = re.match(r"\s*Size: (0x[0-9A-Fa-f]+)", l)
+            if m and fnm is not None:
+                if fnm.startswith("naija::") or fnm.startswith("<naija::"):
+                    k = "bin:" + normalise(fnm, crate="naija")
+                    sizes[k] = max(sizes.get(k, 0), int(m.group(1), 16))
+                fnm = None
     meta = dict(objects=len(objs), functions=len(raw), rlib=os.path.basename(rlib), profile="release" if release else "dev", tree_hash=th)
     if os.path.isdir(os.path.dirname(cache_file)):
         tmpf = cache_file + ".tmp%d" % os.getpid()
